@@ -23,13 +23,19 @@ type tfDenom struct {
 }
 
 type tfOp struct {
-	kind   string
-	actor  *world.Account
-	denom  string
-	amount math.Int
-	target string // new admin / receiver
-	tx     []byte
-	meta   banktypes.Metadata
+	kind string
+	// principal is the address in whose name the operation is made: the signing account, or a contract that the
+	// account executes (via = that contract)
+	principal string
+	pname     string
+	via       *Contract
+	mintTo    string
+	actor     *world.Account
+	denom     string
+	amount    math.Int
+	target    string // new admin / receiver
+	tx        []byte
+	meta      banktypes.Metadata
 }
 
 const c16Native2 = "uother"
@@ -45,6 +51,28 @@ func c16(r *core.Run) []*core.Violation {
 		for _, u := range s.Users {
 			s.N.SyncAccount(u)
 		}
+	}
+	// contract principals: echo contracts that act through the token-factory binding (whoever executes them decides what)
+	var contracts []*Contract
+	if t.Draw(2) == 1 {
+		rp, cp := s.Cfg.RestartPerMille, s.Cfg.CrashPerMille
+		s.Cfg.RestartPerMille, s.Cfg.CrashPerMille = 0, 0
+		s.Block() // (a node that was just restarted checks transactions against height 0 until its next commit)
+		s.N.SyncAccount(s.Users[0])
+		contracts = DeployEcho(s, s.Users[0], 1+t.Intn(2), s.Block)
+		// the denomination creation fee is charged to the creator: give the contracts funds of their own
+		for _, c := range contracts {
+			s.Submit(s.Users[0], &banktypes.MsgSend{FromAddress: s.Users[0].Bech32(), ToAddress: c.Addr.String(), Amount: sdk.NewCoins(sdk.NewCoin(app.BondDenom, math.NewInt(500_000_000)))})
+		}
+		s.Block()
+		s.Cfg.RestartPerMille, s.Cfg.CrashPerMille = rp, cp
+	}
+	holders := []string{}
+	for _, u := range s.Users {
+		holders = append(holders, u.Bech32())
+	}
+	for _, c := range contracts {
+		holders = append(holders, c.Addr.String())
 	}
 	model := map[string]*tfDenom{}
 	var viols []*core.Violation
@@ -149,6 +177,47 @@ func c16(r *core.Run) []*core.Violation {
 				op.amount = math.NewIntFromUint64(1 + t.Uint64()%1000)
 				msg = &banktypes.MsgSend{FromAddress: actor.Bech32(), ToAddress: op.target, Amount: sdk.NewCoins(sdk.NewCoin(op.denom, op.amount))}
 			}
+			op.principal, op.pname = actor.Bech32(), actor.Name
+			if len(contracts) > 0 && op.kind != "send" && t.Draw(3) == 1 {
+				// the same operation, made by a contract (executed by the drawn account)
+				c := contracts[t.Intn(len(contracts))]
+				if d, ok := model[op.denom]; ok && t.Draw(4) != 0 {
+					for _, cc := range contracts {
+						if cc.Addr.String() == d.admin {
+							c = cc // mostly the entitled contract
+						}
+					}
+				}
+				op.via, op.principal, op.pname = c, c.Addr.String(), "contract "+c.Addr.String()[:14]
+				var custom map[string]any
+				switch op.kind {
+				case "create":
+					sub := strings.TrimPrefix(op.denom, "factory/"+actor.Bech32()+"/")
+					op.denom = "factory/" + c.Addr.String() + "/" + sub
+					custom = map[string]any{"create_denom": map[string]any{"subdenom": sub}}
+				case "mint":
+					op.mintTo = holders[t.Intn(len(holders))]
+					custom = map[string]any{"mint_tokens": map[string]any{"denom": op.denom, "amount": op.amount.String(), "mint_to_address": op.mintTo}}
+				case "burn":
+					custom = map[string]any{"burn_tokens": map[string]any{"denom": op.denom, "amount": op.amount.String(), "burn_from_address": ""}}
+				case "change-admin":
+					if op.target == "" {
+						op.target = holders[t.Intn(len(holders))] // the binding cannot renounce
+					}
+					custom = map[string]any{"change_admin": map[string]any{"denom": op.denom, "new_admin_address": op.target}}
+				case "set-metadata":
+					custom = map[string]any{"set_metadata": map[string]any{"denom": op.denom, "metadata": map[string]any{"description": "d", "base": op.denom, "display": op.denom, "name": "n", "symbol": "S",
+						"denom_units": []any{map[string]any{"denom": op.denom, "exponent": 0, "aliases": []string{}}}}}}
+				}
+				res := c.ExecuteVia(s, actor, map[string]any{"token_factory_msg": custom})
+				if !res.Accepted() {
+					continue
+				}
+				op.tx = res.Tx
+				ops = append(ops, op)
+				r.Stats.Probe("contract_ops_sent")
+				continue
+			}
 			res := s.Submit(actor, msg)
 			if !res.Accepted() {
 				r.Trace.Event("rejected", "%s %s by %s", op.kind, op.denom, actor.Name)
@@ -181,9 +250,13 @@ func c16(r *core.Run) []*core.Violation {
 				continue
 			}
 			ok := res.Code == 0
-			r.Trace.Event(op.kind, "%s %s ok=%v", op.actor.Name, op.denom, ok)
+			r.Trace.Event(op.kind, "%s %s ok=%v", op.pname, op.denom, ok)
+			if ok && op.via != nil {
+				r.Stats.Probe("contract_ops_ok")
+			}
+
 			d := model[op.denom]
-			isAdmin := d != nil && d.admin == op.actor.Bech32()
+			isAdmin := d != nil && d.admin == op.principal
 			fail := func(class, detail string) {
 				viols = append(viols, vio("C16", class, br.Height, map[string]string{"op": op.kind}, detail))
 			}
@@ -191,23 +264,27 @@ func c16(r *core.Run) []*core.Violation {
 			case "create":
 				if ok {
 					if d != nil {
-						fail("recreate-existing", fmt.Sprintf("%s created %s again", op.actor.Name, op.denom))
+						fail("recreate-existing", fmt.Sprintf("%s created %s again", op.pname, op.denom))
 					}
-					model[op.denom] = &tfDenom{admin: op.actor.Bech32(), supply: math.ZeroInt(), bal: map[string]math.Int{}}
+					model[op.denom] = &tfDenom{admin: op.principal, supply: math.ZeroInt(), bal: map[string]math.Int{}}
 					r.Stats.Probe("denoms_created")
 				}
 			case "mint":
 				if ok {
 					r.Stats.Probe("mints_ok")
 					if d == nil {
-						fail("mint-non-factory", fmt.Sprintf("%s minted %s of %s which was not created through the factory", op.actor.Name, op.amount, op.denom))
+						fail("mint-non-factory", fmt.Sprintf("%s minted %s of %s which was not created through the factory", op.pname, op.amount, op.denom))
 						continue
 					}
 					if !isAdmin {
-						fail("mint-by-non-admin", fmt.Sprintf("%s minted %s but admin is %s", op.actor.Name, op.denom, d.admin))
+						fail("mint-by-non-admin", fmt.Sprintf("%s minted %s but admin is %s", op.pname, op.denom, d.admin))
 					}
 					d.supply = d.supply.Add(op.amount)
-					d.bal[op.actor.Bech32()] = getInt(d.bal, op.actor.Bech32()).Add(op.amount)
+					to := op.principal
+					if op.via != nil {
+						to = op.mintTo // the binding mints to the contract and forwards to the named receiver
+					}
+					d.bal[to] = getInt(d.bal, to).Add(op.amount)
 				} else if isAdmin {
 					r.Stats.Probe("admin_mint_failed")
 				}
@@ -215,35 +292,35 @@ func c16(r *core.Run) []*core.Violation {
 				if ok {
 					r.Stats.Probe("burns_ok")
 					if d == nil {
-						fail("burn-non-factory", fmt.Sprintf("%s burned %s of %s which was not created through the factory", op.actor.Name, op.amount, op.denom))
+						fail("burn-non-factory", fmt.Sprintf("%s burned %s of %s which was not created through the factory", op.pname, op.amount, op.denom))
 						continue
 					}
 					if !isAdmin {
-						fail("burn-by-non-admin", fmt.Sprintf("%s burned %s but admin is %s", op.actor.Name, op.denom, d.admin))
+						fail("burn-by-non-admin", fmt.Sprintf("%s burned %s but admin is %s", op.pname, op.denom, d.admin))
 					}
 					d.supply = d.supply.Sub(op.amount)
-					d.bal[op.actor.Bech32()] = getInt(d.bal, op.actor.Bech32()).Sub(op.amount)
+					d.bal[op.principal] = getInt(d.bal, op.principal).Sub(op.amount)
 				}
 			case "change-admin":
 				if ok {
 					r.Stats.Probe("admin_changes")
 					if d == nil {
-						fail("admin-non-factory", fmt.Sprintf("%s changed admin of unknown denom %s", op.actor.Name, op.denom))
+						fail("admin-non-factory", fmt.Sprintf("%s changed admin of unknown denom %s", op.pname, op.denom))
 						continue
 					}
 					if !isAdmin {
-						fail("change-admin-by-non-admin", fmt.Sprintf("%s changed admin of %s but admin is %s", op.actor.Name, op.denom, d.admin))
+						fail("change-admin-by-non-admin", fmt.Sprintf("%s changed admin of %s but admin is %s", op.pname, op.denom, d.admin))
 					}
 					d.admin = op.target
 				}
 			case "set-metadata":
 				if ok {
 					if d == nil {
-						fail("metadata-non-factory", fmt.Sprintf("%s set metadata of unknown denom %s", op.actor.Name, op.denom))
+						fail("metadata-non-factory", fmt.Sprintf("%s set metadata of unknown denom %s", op.pname, op.denom))
 						continue
 					}
 					if !isAdmin {
-						fail("metadata-by-non-admin", fmt.Sprintf("%s set metadata of %s but admin is %s", op.actor.Name, op.denom, d.admin))
+						fail("metadata-by-non-admin", fmt.Sprintf("%s set metadata of %s but admin is %s", op.pname, op.denom, d.admin))
 					}
 					r.Stats.Probe("metadata_set")
 				}
@@ -267,11 +344,12 @@ func c16(r *core.Run) []*core.Violation {
 				viols = append(viols, vio("C16", "admin-mismatch", br.Height, nil, fmt.Sprintf("%s: stored admin %q (err %v), model %q", denom, am.Admin, err, d.admin)))
 			}
 			sum := math.ZeroInt()
-			for _, u := range s.Users {
-				bal := s.N.App.BankKeeper.GetBalance(ctx, u.Addr, denom).Amount
-				want := getInt(d.bal, u.Bech32())
+			for _, hld := range holders {
+				acc, _ := sdk.AccAddressFromBech32(hld)
+				bal := s.N.App.BankKeeper.GetBalance(ctx, acc, denom).Amount
+				want := getInt(d.bal, hld)
 				if !bal.Equal(want) {
-					viols = append(viols, vio("C16", "balance-mismatch", br.Height, nil, fmt.Sprintf("%s: %s holds %s, model %s", denom, u.Name, bal, want)))
+					viols = append(viols, vio("C16", "balance-mismatch", br.Height, nil, fmt.Sprintf("%s: %s holds %s, model %s", denom, hld, bal, want)))
 				}
 				sum = sum.Add(bal)
 			}
